@@ -120,7 +120,6 @@ orient2d!(c12_orient2d_fast_g2, 2, call_fast_orient2);
 orient2d!(c12_orient2d_robust_g2, 2, call_robust_orient2);
 orient2d!(c12_orient2d_fast_g4, 4, call_fast_orient2);
 orient2d!(c12_orient2d_robust_g4, 4, call_robust_orient2);
-orient2d!(c12_orient2d_fast_g8, 8, call_fast_orient2);
 
 harness! {
     // bound: D=2 orientation on the dyadic grid 2^-k * [-2,2]^2, k symbolic in 0..=20
@@ -337,7 +336,6 @@ insphere2d_cube2!(c12_insphere2d_fast_g3_edge_b, 3, [-3, 2], [3, -1], call_fast_
 insphere2d_cube2!(c12_insphere2d_lifted_g3_edge_a, 3, [0, 0], [1, 0], call_insphere_lifted);
 insphere2d_cube2!(c12_insphere2d_robust1_g3_edge_a, 3, [0, 0], [1, 0], call_robust_stage1);
 insphere2d_cube2!(c12_insphere2d_robust3_g3_edge_a, 3, [0, 0], [1, 0], call_robust_stage3);
-insphere2d_cube2!(c12_insphere2d_robust3_g3_edge_b, 3, [-3, 2], [3, -1], call_robust_stage3);
 
 // ---------------------------------------------------------------------------
 // In-sphere on small-scale dyadic input: coordinates are integers times 2^-k. The exact
